@@ -45,3 +45,13 @@ package xml
 //@   enter decMsg = message
 //@   leave decOK = (err == nil)
 //@   leave decObj = req
+//@
+//@ func xml.DecodeLogoutRequest
+//@   inline
+//@   names req, err
+//@   property C13
+//@   enter decCalls = decCalls + 1
+//@   enter decEnc = encoding
+//@   enter decMsg = message
+//@   leave decOK = (err == nil)
+//@   leave decObj = req
